@@ -9,7 +9,14 @@ import (
 	"bytes"
 	"encoding/json"
 	"fmt"
+	"io"
+	"log"
+	"net/http"
+	"net/http/httptest"
+	"os"
 	"strings"
+
+	"github.com/EliCDavis/polyform/generator"
 
 	"github.com/EliCDavis/polyform/generator/artifact"
 	"github.com/EliCDavis/polyform/generator/artifact/basics"
@@ -80,19 +87,56 @@ func render2(a, b int) string { return fmt.Sprintf("a%d b%d", a, b) }
 type world struct {
 	inst     *graph.Instance
 	aID, bID string
+	// server mode: the real HTTP endpoints (nil when the clients call the Instance directly)
+	paramH, prodH http.Handler
 }
 
-func build() world {
-	a := &parameter.Value[int]{Name: "a", DefaultValue: 0}
-	b := &parameter.Value[int]{Name: "b", DefaultValue: 0}
+func graphParts() (a, b *parameter.Value[int], p1, p2 nodes.NodeOutput[artifact.Artifact]) {
+	a = &parameter.Value[int]{Name: "a", DefaultValue: 0}
+	b = &parameter.Value[int]{Name: "b", DefaultValue: 0}
 	s1 := &nodes.Struct[string, S1Data]{Data: S1Data{A: a.Out(), B: b.Out()}}
 	s2 := &nodes.Struct[string, S2Data]{Data: S2Data{S: s1.Out(), A: a.Out()}}
-	p1 := &nodes.Struct[artifact.Artifact, P1Data]{Data: P1Data{S: s2.Out(), B: b.Out()}}
-	p2 := &nodes.Struct[artifact.Artifact, P2Data]{Data: P2Data{S: s1.Out()}}
-	inst := graph.New(&refutil.TypeFactory{})
-	inst.AddProducer("p1", p1.Out())
-	inst.AddProducer("p2", p2.Out())
-	return world{inst, inst.NodeId(a), inst.NodeId(b)}
+	p1 = (&nodes.Struct[artifact.Artifact, P1Data]{Data: P1Data{S: s2.Out(), B: b.Out()}}).Out()
+	p2 = (&nodes.Struct[artifact.Artifact, P2Data]{Data: P2Data{S: s1.Out()}}).Out()
+	return
+}
+
+// build constructs a fresh system. via: "instance" (clients call graph.Instance), "server" (clients
+// go through the real parameter-value and producer HTTP endpoints, autosave off) or "server+autosave".
+func build(via string) world {
+	a, b, p1, p2 := graphParts()
+	if via == "" || via == "instance" {
+		inst := graph.New(&refutil.TypeFactory{})
+		inst.AddProducer("p1", p1)
+		inst.AddProducer("p2", p2)
+		return world{inst: inst, aID: inst.NodeId(a), bID: inst.NodeId(b)}
+	}
+	app := &generator.App{Name: "verif", Files: map[string]nodes.NodeOutput[artifact.Artifact]{"p1": p1, "p2": p2}}
+	savePath := ""
+	if via == "server+autosave" {
+		savePath = autosavePath()
+	}
+	inst, ph, prh := generator.VerifEndpoints(app, savePath)
+	return world{inst: inst, aID: inst.NodeId(a), bID: inst.NodeId(b), paramH: ph, prodH: prh}
+}
+
+var autosaveFile string
+
+func autosavePath() string {
+	if autosaveFile == "" {
+		dir := ""
+		if st, err := os.Stat("/dev/shm"); err == nil && st.IsDir() {
+			dir = "/dev/shm" // the autosave file is rewritten on every update: keep it off the disk
+		}
+		log.SetOutput(io.Discard) // GraphSaver logs every save
+		f, err := os.CreateTemp(dir, "c13-autosave-*.json")
+		if err != nil {
+			panic(err)
+		}
+		f.Close()
+		autosaveFile = f.Name()
+	}
+	return autosaveFile
 }
 
 // ---- operations ----
@@ -138,6 +182,9 @@ var model = porcupine.Model{
 }
 
 func perform(w world, code string) string {
+	if w.paramH != nil {
+		return performHTTP(w, code)
+	}
 	switch code[0] {
 	case 'U':
 		id := w.aID
@@ -170,6 +217,38 @@ func perform(w world, code string) string {
 	return "?"
 }
 
+// performHTTP issues the operation as the request the editor / a client would send, served
+// synchronously by the real endpoint in the calling (controlled) thread.
+func performHTTP(w world, code string) string {
+	rec := httptest.NewRecorder()
+	id := w.aID
+	if len(code) > 1 && code[1] == 'b' {
+		id = w.bID
+	}
+	switch code[0] {
+	case 'U':
+		w.paramH.ServeHTTP(rec, httptest.NewRequest(http.MethodPost, "/parameter/value/"+id, strings.NewReader(code[2:])))
+		if rec.Code != http.StatusOK {
+			return fmt.Sprintf("http %d: %s", rec.Code, rec.Body.String())
+		}
+		return "ok"
+	case 'R':
+		w.paramH.ServeHTTP(rec, httptest.NewRequest(http.MethodGet, "/parameter/value/"+id, nil))
+		return rec.Body.String()
+	case 'A':
+		name := "p1"
+		if code[1] == '2' {
+			name = "p2"
+		}
+		w.prodH.ServeHTTP(rec, httptest.NewRequest(http.MethodGet, "/producer/value/"+name, nil))
+		if rec.Code != http.StatusOK {
+			return fmt.Sprintf("http %d: %s", rec.Code, rec.Body.String())
+		}
+		return rec.Body.String()
+	}
+	return "?"
+}
+
 // Program: one op list per client thread.
 type Program [][]string
 
@@ -181,11 +260,21 @@ func (p Program) String() string {
 	return strings.Join(parts, " || ")
 }
 
-func scenario(p Program, bounds []int) schedlib.Scenario {
+// ScnCase is what a schedule violation records about the scenario.
+type ScnCase struct {
+	Via     string  `json:"via"`
+	Program Program `json:"program"`
+}
+
+func scenario(via string, p Program, bounds []int) schedlib.Scenario {
+	site := "graph.Instance"
+	if via != "instance" {
+		site = "generator.parameterValueEndpoint/ProducerEndpoint"
+	}
 	return schedlib.Scenario{
-		Name: p.String(), Bounds: bounds, MaxPoints: 600, Case: p, Site: "graph.Instance", Whole: true,
+		Name: via + ": " + p.String(), Bounds: bounds, MaxPoints: 900, Case: ScnCase{via, p}, Site: site, Whole: true,
 		Make: func() (func(), func(vsched.Exec) (string, *core.Violation)) {
-			w := build()
+			w := build(via)
 			nops := 0
 			for _, t := range p {
 				nops += len(t)
@@ -216,16 +305,16 @@ func scenario(p Program, bounds []int) schedlib.Scenario {
 				var outs []string
 				for _, o := range ops {
 					if o.Output == nil {
-						return "incomplete", &core.Violation{Site: "graph.Instance", Clause: "every call returns", Class: "incomplete", Detail: p.String()}
+						return "incomplete", &core.Violation{Site: site, Clause: "every call returns", Class: "incomplete", Detail: p.String()}
 					}
 					outs = append(outs, fmt.Sprintf("%s->%s", o.Input.(opIn).code, o.Output))
 				}
 				res := porcupine.CheckOperations(model, ops)
 				if !res {
 					return "not-linearizable", &core.Violation{
-						Site:   "graph.Instance." + firstKinds(p),
+						Site:   site + "." + firstKinds(p),
 						Clause: "concurrent calls behave as if executed one at a time in an order consistent with real time",
-						Class:  classOf(p),
+						Class:  via + "/" + classOf(p),
 						Detail: fmt.Sprintf("program %s observed %v (call/return steps %v)", p.String(), outs, times(ops)),
 					}
 				}
@@ -328,19 +417,24 @@ func run(c *core.Ctx) {
 	}
 	type family struct {
 		name    string
+		via     string
 		alpha   []string
 		threads int
 		maxLen  int
-		bounds  []int
 	}
 	fams := []family{
-		{"2 clients x <=2 ops, 8-op alphabet", alphabet, 2, 2, []int{-1}},
-		{"3 clients x 1 op, 8-op alphabet", alphabet, 3, 1, []int{-1}},
+		{"instance: 2 clients x <=2 ops, 8-op alphabet", "instance", alphabet, 2, 2},
+		{"instance: 3 clients x 1 op, 8-op alphabet", "instance", alphabet, 3, 1},
+		{"server: 2 clients x <=2 ops, 5-op alphabet", "server", alphabet[:5], 2, 2},
+		{"server+autosave: 2 clients x <=2 ops, 4-op alphabet", "server+autosave", alphabet[:4], 2, 2},
 	}
 	if c.Thorough() {
 		fams = append(fams,
-			family{"3 clients x <=2 ops, 5-op alphabet", alphabet[:5], 3, 2, []int{-1}},
-			family{"2 clients x <=3 ops, 5-op alphabet", alphabet[:5], 2, 3, []int{-1}},
+			family{"instance: 3 clients x <=2 ops, 5-op alphabet", "instance", alphabet[:5], 3, 2},
+			family{"instance: 2 clients x <=3 ops, 5-op alphabet", "instance", alphabet[:5], 2, 3},
+			family{"server: 3 clients x 1 op, 8-op alphabet", "server", alphabet, 3, 1},
+			family{"server+autosave: 3 clients x 1 op, 8-op alphabet", "server+autosave", alphabet, 3, 1},
+			family{"server+autosave: 2 clients x <=2 ops, 8-op alphabet", "server+autosave", alphabet, 2, 2},
 		)
 	}
 	vsched.SetReducedPoints(true) // points before every acquiring operation only (after the self-test)
@@ -354,14 +448,17 @@ func run(c *core.Ctx) {
 			if c.Expired() {
 				return
 			}
-			schedlib.Explore(c, rl, scenario(p, f.bounds))
+			schedlib.Explore(c, rl, scenario(f.via, p, []int{-1}))
 		}
+	}
+	if autosaveFile != "" {
+		os.Remove(autosaveFile)
 	}
 }
 
 func replay(c *core.Ctx) {
 	var rc struct {
-		Scenario Program `json:"scenario"`
+		Scenario ScnCase `json:"scenario"`
 		Choices  []int   `json:"choices"`
 		Bound    int     `json:"bound"`
 	}
@@ -371,5 +468,8 @@ func replay(c *core.Ctx) {
 	}
 	mapord.Pin()
 	vsched.SetReducedPoints(true)
-	schedlib.Replay(c, schedlib.NewRaceLog(), scenario(rc.Scenario, nil), rc.Choices, rc.Bound)
+	schedlib.Replay(c, schedlib.NewRaceLog(), scenario(rc.Scenario.Via, rc.Scenario.Program, nil), rc.Choices, rc.Bound)
+	if autosaveFile != "" {
+		os.Remove(autosaveFile)
+	}
 }
